@@ -13,7 +13,6 @@ from concurrent.futures import ThreadPoolExecutor
 import vlib
 from vlib import ToolError, log
 
-UNIT_MS = 2            # one abstract time unit of the timed model
 REM_MIN_MS = 200       # "given at least a fifth of a second on its clock"
 CHUNK = 50000          # events per trace file (an event is < 0.3 kB)
 T_SET = [200, 250, 500, 1000, 3000]
@@ -62,8 +61,12 @@ class Engine:
             self.p.wait()
 
 
+class Unusable(Exception):
+    """The position gives no move at depth 1 (terminal, or not accepted): nothing can be timed on it."""
+
+
 def timed_go(eng_path, fen, go, overhead):
-    """Returns dict(elapsed_s | None, bestmove line, latency_s of a depth-1 search, note)."""
+    """One fresh process, one timed `go`: dict(elapsed s or None, bestmove line, depth-1 round trip s, last info)."""
     e = Engine(eng_path)
     try:
         e.send("uci")
@@ -78,8 +81,8 @@ def timed_go(eng_path, fen, go, overhead):
         t0 = time.monotonic()
         e.send("go depth 1")
         t, l = e.wait("bestmove", 20)
-        if t is None:
-            raise ToolError("no bestmove for go depth 1 on %s" % fen)
+        if t is None or len(l.split()) < 2 or l.split()[1] in ("0000", "(none)"):
+            raise Unusable(fen)
         lat = t - t0
         e.send("isready")
         e.wait("readyok", 20)
@@ -142,12 +145,21 @@ def wall_clock_cases(chk, fens):
 
 def phase_wall_clock(chk, eng, fens):
     cases = wall_clock_cases(chk, fens)
-    worst_ratio, lat_max, first_misses = 0.0, 0.0, 0
+    worst_ratio, lats, first_misses = 0.0, [], 0
     for c in cases:
         tries = []
         for attempt in range(3):
-            r = timed_go(eng, c["fen"], c["go"], c["ovh"])
-            lat_max = max(lat_max, r["latency"])
+            r = None
+            for alt in range(6):                    # a root without a move at depth 1 is replaced by the next one
+                try:
+                    r = timed_go(eng, c["fen"], c["go"], c["ovh"])
+                    break
+                except Unusable:
+                    same = [f for f in fens if f.split()[1] == c["fen"].split()[1]]
+                    c["fen"] = same[(same.index(c["fen"]) + 1) % len(same)]
+            if r is None:
+                raise ToolError("no usable position for the wall-clock run near %s" % c["fen"])
+            lats.append(r["latency"])
             el = r["elapsed"]
             tries.append(None if el is None else round(el * 1000, 3))
             if el is not None and el * 1000 < c["t"]:
@@ -162,11 +174,14 @@ def phase_wall_clock(chk, eng, fens):
         if ok:
             worst_ratio = max(worst_ratio, tries[-1] / c["t"])
         else:
-            chk.violation("%s|%s|overhead=%d" % (c["fen"], c["go"], c["ovh"]), "move-returned-after-clock-ran-out",
+            what = "no-move-at-all-crash-or-hang" if all(x is None for x in tries) else "move-returned-after-clock-ran-out"
+            chk.violation("%s|%s|overhead=%d" % (c["fen"], c["go"], c["ovh"]), what,
                           {"elapsed_ms_three_attempts": tries, "clock_ms": c["t"]},
                           replay={"kind": "wall-clock", "fen": c["fen"], "go": c["go"], "move_overhead": c["ovh"],
                                   "binary": "cargo build --release in /repo (default features), started as `engine uci`"})
-    return cases, worst_ratio, lat_max, first_misses
+    # third largest: a latency that belongs to the code shows at least three times, a hiccup of the box does not
+    lat = sorted(lats)[-3] if len(lats) >= 3 else max(lats)
+    return cases, worst_ratio, lat, max(lats), first_misses
 
 
 # ----------------------------------------------------------------------------- helpers
@@ -205,37 +220,47 @@ def main():
 
     # ------------------------------------------------------------------ phase W: timing-sensitive, sequential
     tw = time.time()
-    cases, worst_ratio, lat_max, first_misses = phase_wall_clock(chk, eng, fens)
+    cases, worst_ratio, lat_max, lat_any, first_misses = phase_wall_clock(chk, eng, fens)
     log("[C14] wall-clock: %d runs, %d first-attempt misses, max elapsed/clock %.3f, %.1fs" %
         (len(cases), first_misses, worst_ratio, time.time() - tw))
     fenfile = os.path.join(od, "pollgap_fens.txt")
     with open(fenfile, "w") as f:
-        f.write("\n".join(fens[(chk.seed + i) % len(fens)] for i in range(3 if q else 12)) + "\n")
-    pg = []
-    for j, go in enumerate(["go wtime 1000 btime 1000 movestogo 1", "go wtime 3000 btime 3000"]):
-        p = os.path.join(od, "pollgap_%d.ndjson" % j)
-        o = json.loads(vlib.harness(hb_opt, ["time", "pollgap", fenfile, go, 3 if q else 12, p], timeout=600))
-        if o["runs"] == 0 or o["polls"] == 0:
-            raise ToolError("vacuous poll-gap measurement: %s" % o)
-        pg.append(p)
-    pollfile = os.path.join(od, "pollgap.ndjson")
-    with open(pollfile, "w") as f:
-        for p in pg:
-            f.write(open(p).read())
-    rp = trace(pollfile, "poll")
-    ps = rp.stats("poll")[0]
-    if ps["runs_stopped_by_hard"] == 0:
-        raise ToolError("no measured search was ended by its hard limit: %s" % ps)
-    gap_ms = ps["max_gap_ns"] / 1e6
-    g_units = max(1, math.ceil(gap_ms / UNIT_MS))
+        rich = fens[:12]                              # start position and the perft roots: searches that last
+        f.write("\n".join(rich[(chk.seed + i) % len(rich)] for i in range(3 if q else 8)) + "\n")
+    # Three repetitions of the same searches: a poll gap that belongs to the code shows in all three, a scheduling
+    # hiccup of the box (or of the monitor thread) does not -- the same discipline as for the wall-clock runs.
+    reps = []
+    for rep in range(3):
+        pf = os.path.join(od, "pollgap_%d.ndjson" % rep)
+        with open(pf, "w") as f:
+            for j, go in enumerate(["go wtime 1000 btime 1000 movestogo 1", "go wtime 3000 btime 3000"]):
+                p = os.path.join(od, "pollgap_%d_%d.ndjson" % (rep, j))
+                o = json.loads(vlib.harness(hb_opt, ["time", "pollgap", fenfile, go, 3 if q else 8, p], timeout=600))
+                if o["runs"] == 0 or o["polls"] == 0:
+                    raise ToolError("vacuous poll-gap measurement: %s" % o)
+                f.write(open(p).read())
+                os.remove(p)
+        reps.append(pf)
+    rps = vlib.pmap(lambda p: trace(p, "poll"), reps, n=3)
+    pss = [r.stats("poll")[0] for r in rps]
+    if sum(x["runs_stopped_by_hard"] for x in pss) == 0:
+        raise ToolError("no measured search was ended by its hard limit: %s" % pss)
+    gap_ms = min(x["max_gap_ns"] for x in pss) / 1e6              # systematic: present in every repetition
+    gap_any_ms = max(x["max_gap_ns"] for x in pss) / 1e6
+    ps = {"runs": sum(x["runs"] for x in pss), "polls": sum(x["polls"] for x in pss),
+          "max_over_hard_ns": max(x["max_over_hard_ns"] for x in pss)}
+    # abstract time unit of the timed model: 2 ms, coarser when the measured gap is large (keeps MaxPollGap <= 8 units;
+    # rounding is conservative: gaps and latencies up, the clock down)
+    unit_ms = max(2, math.ceil(gap_ms / 8))
+    g_units = max(1, math.ceil(gap_ms / unit_ms))
     # go -> bestmove of a depth-1 search bounds start-up plus return latency; charged in full to each of them
-    lat_units = max(1, math.ceil(lat_max * 1000 / UNIT_MS))
-    log("[C14] measured MaxPollGap %.3f ms (%d polls in %d searches), depth-1 round trip %.3f ms" %
-        (gap_ms, ps["polls"], ps["runs"], lat_max * 1000))
+    lat_units = max(1, math.ceil(lat_max * 1000 / unit_ms))
+    log("[C14] measured MaxPollGap %.3f ms in each of three repetitions (largest single gap %.3f ms; %d polls in %d "
+        "searches), depth-1 round trip %.3f ms" % (gap_ms, gap_any_ms, ps["polls"], ps["runs"], lat_max * 1000))
 
     # ------------------------------------------------------------------ phase M: TLC jobs in parallel
     nsh = 4 if q else 16
-    rem_units = REM_MIN_MS // UNIT_MS
+    rem_units = REM_MIN_MS // unit_ms
 
     def job(j):
         kind = j[0]
@@ -294,11 +319,13 @@ def main():
     # the timed model runs beside the grid pipeline (all limits allowed by PropertyView, clocks of 200 ms and more)
     u = rem_units
     timed_jobs = [("timed", "sparse", "{%d, %d}" % (u, u + 1), "FALSE")] if q else \
-                 [("timed", "sparse", "{%d, %d, %d, %d}" % (u, u + 1, 250 // UNIT_MS, 500 // UNIT_MS), "FALSE"),
+                 [("timed", "sparse", "{%d, %d, %d}" % (u, u + 1, 250 // unit_ms), "FALSE"),
                   ("timed", "dense", "{%d}" % u, "TRUE")]
     bg = ThreadPoolExecutor(max_workers=2)
     timed_futs = [bg.submit(job, tj) for tj in timed_jobs]
+    tm = time.time()
     stage1 = vlib.pmap(job, [("grid", sh) for sh in range(nsh)] + [("extra",)], n=14)
+    log("[C14] grid model-checked in %d shards, %.1fs" % (nsh, time.time() - tm))
 
     # real TimeStrategy::new on every situation, both build profiles
     def run_harness(item):
@@ -330,7 +357,9 @@ def main():
                 os.remove(fpath)
         return chunks
     chunks = [c for cs in vlib.pmap(run_harness, stage1, n=8) for c in cs]
+    log("[C14] harness events recorded in both profiles, %.1fs" % (time.time() - tm))
     traces = vlib.pmap(lambda c: trace(c[0], "lim"), chunks, n=14)
+    log("[C14] %d trace files validated, %.1fs" % (len(traces), time.time() - tm))
 
     # ------------------------------------------------------------------ collect
     states = transitions = 0
@@ -351,11 +380,12 @@ def main():
         elif timed.error and "ReturnsInTime" in timed.error:
             timed_ok = False
             chk.drift.append({"what": "measured-poll-gap-breaks-the-premise-of-the-timed-model",
-                              "detail": {"max_poll_gap_ms": gap_ms, "unit_ms": UNIT_MS, "MaxPollGap": g_units,
+                              "detail": {"max_poll_gap_ms": gap_ms, "unit_ms": unit_ms, "MaxPollGap": g_units,
                                          "StartLat": lat_units, "RetLat": lat_units}, "source": "MC_TimeAlloc TimedSpec " + timed.name})
         else:
             raise ToolError("MC_TimeAlloc (timed %s): %s" % (timed.name, timed.error or timed.stdout[-2000:]))
     bg.shutdown()
+    log("[C14] timed model done, %.1fs" % (time.time() - tm))
 
     tot = {}
     ood, identical = [], True
@@ -375,7 +405,8 @@ def main():
         ood += r.viols("C14-OOD")
         if kind != "extra" and not r.viols("C14") and not r.drifts("C14"):
             os.remove(cp)                            # only chunks named by a report are kept
-    ood += rp.viols("C14-OOD")
+    for r in rps:
+        ood += r.viols("C14-OOD")
     if tot.get("nontrivial", 0) == 0 or tot.get("cap_binds", 0) == 0 or tot.get("crash_only", 0) == 0:
         raise ToolError("vacuous trace validation: %s" % tot)
 
@@ -401,7 +432,7 @@ def main():
 
     chk.cov.update({
         "states": states, "transitions": transitions,
-        "traces_validated_against_impl": len(traces) + 1,
+        "traces_validated_against_impl": len(traces) + len(rps),
         "evaluations": tot["events"], "distinct_nontrivial": tot["nontrivial"],
         "rule": "clock situations (remaining, increment, movestogo, overhead, side to move, which fields were sent) from the "
                 "model-checked grid, seeded random draws and the wall-clock runs, sent as UCI text through the real parser into "
@@ -416,10 +447,11 @@ def main():
         "wallclock_runs": len(cases), "wallclock_first_attempt_misses": first_misses,
         "wallclock_max_elapsed_over_clock": round(worst_ratio, 4),
         "wallclock_max_ms_beyond_hard_limit": round(over, 3),
-        "depth1_round_trip_ms_max": round(lat_max * 1000, 3),
-        "poll_gap_ms_max": round(gap_ms, 3), "poll_gap_searches": ps["runs"], "polls_observed": ps["polls"],
+        "depth1_round_trip_ms_third_largest": round(lat_max * 1000, 3), "depth1_round_trip_ms_largest": round(lat_any * 1000, 3),
+        "poll_gap_ms_in_all_three_repetitions": round(gap_ms, 3), "poll_gap_ms_largest_single": round(gap_any_ms, 3),
+        "poll_gap_searches": ps["runs"], "polls_observed": ps["polls"],
         "ms_beyond_hard_limit_in_harness_max": round(ps["max_over_hard_ns"] / 1e6, 3),
-        "timed_model": {"unit_ms": UNIT_MS, "MaxPollGap": g_units, "StartLat": lat_units, "RetLat": lat_units,
+        "timed_model": {"unit_ms": unit_ms, "clock_ms": REM_MIN_MS, "MaxPollGap": g_units, "StartLat": lat_units, "RetLat": lat_units,
                         "holds": timed_ok, "states": timed_states},
     })
     chk.assumptions += [
